@@ -14,7 +14,8 @@ RULE = ("command lists of 1-7 entries, each naming any subset of *earlier* entri
         "diamonds, redundant ancestors), some internal ('!name'), help as str or (help, descr), explicit or implicit "
         "default command; 0-8 uniquely named equal-length flags --opt-xx each added to one command parser, one internal "
         "option set or the ArgParser itself in generated order; every (command, flag) pair is parsed (exhaustive per "
-        "configuration) plus default-command vectors and the standard -v / --color / --no-color options. Non-trivial = "
+        "configuration) plus default-command vectors (empty, option first, and - with an optional '*' positional on every command - "
+        "a first word that is no command name: '-', '--', 'h', 'help', '', ...) and the standard -v / --color / --no-color options. Non-trivial = "
         "graph has a node with >=2 parents or a chain of depth >=3; distinct by (graph, assignment).")
 ASSUMPTIONS = [
     "each flag is added to exactly one parser (adding one flag twice along a path is an argparse conflict by design)",
@@ -91,6 +92,10 @@ def evaluate(case):
                 classes.add("argparser_level_option")
             else:
                 ap.get_cmd_parser(cmds[o["target"]]["name"]).add_argument(o["flag"], action="store_true", help=dest_help)
+        if case.get("positional"):
+            # a positional accepted by every command, so that vectors starting with a non-option word can be valid
+            ap.add_argument("files", nargs="*", help="positional arguments")
+            classes.add("positional_arguments")
     except BaseException as e:   # noqa
         return Outcome(nt, sorted(classes), [("add_argument_raises_%s" % type(e).__name__, str(e))], key=key)
 
@@ -150,6 +155,9 @@ def evaluate(case):
     # default command
     dname = cmds[eff_default]["name"]
     vecs = [[]] + [[o["flag"]] for o in case["opts"]] + [["-v"], ["--no-color"]]
+    names = {c["name"] for c in cmds}
+    words = [w for w in case.get("words", []) if w not in names]
+    vecs += [[w] for w in words] + [[w, "-v"] for w in words[:2]] + [["-v", w] for w in words[:2]]
     for vec in vecs:
         evals += 1
         st1, r1 = parse(vec)
@@ -191,7 +199,10 @@ def st_case(draw):
     opts = [{"flag": "--opt-%s%s" % (letters[k], letters[(k * 3 + 1) % 10]),
              "target": draw(st.integers(-1, n - 1))} for k in range(nopt)]
     opts = draw(st.permutations(opts)) if opts else opts
-    return {"cmds": cmds, "default": dflt, "opts": list(opts), "spaced": draw(st.booleans())}
+    words = draw(st.lists(st.sampled_from(["-", "--", "h", "help", "p", "", "x", "el", "file.txt", "cmd", "-h-", "cmd0x", "c1"]),
+                          max_size=4, unique=True))
+    return {"cmds": cmds, "default": dflt, "opts": list(opts), "spaced": draw(st.booleans()),
+            "positional": draw(st.booleans()), "words": words}
 
 
 def regression_cases():
